@@ -46,7 +46,7 @@ PROPS = {
     },
     'C04': {
         'lean_modules': ['C04', 'C11t'],
-        'engines': [('inflow', 300, 3000), ('serve', 150, 1500), ('retry', 100, 600), ('hcall', 1, 1)],
+        'engines': [('inflow', 300, 3000), ('serve', 150, 1500), ('retry', 100, 600), ('hcall', 1, 1), ('bc', 150, 1500)],
         'rule': 'sequences of length 0-40 over PUBLISH qos0/1/2 (ids 1,2,3,65535, dup bits) and PUBREL (known and unknown ids), '
                 'with and without handler, fed to a connected BaseClient; all sequences up to length 5 over a 9-symbol alphabet in the '
                 'thorough tier; non-trivial = stream of well-formed PUBLISH/PUBREL packets (the C04 timeline oracle applied)',
@@ -71,7 +71,7 @@ PROPS = {
     },
     'C01': {
         'lean_modules': ['C01', 'C01v'],
-        'engines': [('retry', 300, 2500), ('oversized', 1, 1)],
+        'engines': [('retry', 300, 2500), ('oversized', 1, 1), ('burst', 10, 60)],
         'rule': 'scripts of environment events (app requests before Connect / while connected / during an outage, dial results, CONNACK accepted with or without session / refused / never, peer close, inbound messages, Handle) with a per-packet fault plan (write failure, lost request, lost acknowledgement, silent) and a friendly tail; hand-written witnesses of the repaired defects first; all single- and double-fault plans over short histories in the thorough tier; non-trivial = the script reached at least one connection',
         'assumptions': ['one task of the RetryClient is one atomic model step (single task goroutine, one request outstanding at a time)',
                         'the transport either delivers a whole packet or fails the write; the broker conforms to MQTT 3.1.1 (Spec in Model/Retry: Broker)',
@@ -89,7 +89,7 @@ PROPS = {
     },
     'C03': {
         'lean_modules': ['C03'],
-        'engines': [('retry', 300, 2500)],
+        'engines': [('retry', 300, 2500), ('burst', 10, 60)],
         'rule': 'scripts of environment events (app requests before Connect / while connected / during an outage, dial results, CONNACK accepted with or without session / refused / never, peer close, inbound messages, Handle) with a per-packet fault plan (write failure, lost request, lost acknowledgement, silent) and a friendly tail; hand-written witnesses of the repaired defects first; all single- and double-fault plans over short histories in the thorough tier; non-trivial = the script reached at least one connection',
         'assumptions': ['one task of the RetryClient is one atomic model step (single task goroutine, one request outstanding at a time)',
                         'the transport either delivers a whole packet or fails the write; the broker conforms to MQTT 3.1.1 (Spec in Model/Retry: Broker)',
